@@ -1,6 +1,8 @@
 """C11 -- instruction encoding and the textual assembly form are exact inverses.
-Proof: NV/Props/Properties_C11.v over the table regenerated from isa.c.
-Correspondence: real isa_encode/isa_decode (ASan build of probes/isa_probe.c) vs extracted model, same lines."""
+Proof: NV/Props/Properties_C11.v over the table regenerated from isa.c (codec theorems; C11_asm_disasm_module for the text form,
+with _refuted witnesses for every hypothesis the real tools need).
+Correspondence: real isa_encode/isa_decode (ASan build of probes/isa_probe.c) vs extracted model, same lines; real
+disasm_module/asm_assemble (probes/asm_probe.c) vs the extracted byte-level model NV.Isa.Asm: see c11_text.py."""
 import os, json
 import vlib
 import c11_text
